@@ -47,7 +47,7 @@ OpsOf(cls, s) ==
     [] cls = "ConnectOther" -> {[op |-> "Connect", kind |-> RE({"base", "fetch"}), k |-> RE(CertKeys), ck |-> RE(CertKeys), chain |-> "self",
                                  priv |-> TRUE, nsig |-> NONE, stt |-> NONE, skip |-> FALSE, nid |-> NONE, pref |-> NONE, cn |-> FALSE]}
     [] cls = "Dial" -> {[op |-> "Dial", k |-> k, ex |-> RE({"none", "one", "many", "dups", "prefixlike", "containsPref"}),
-                         stt |-> RE({"none", "empty", "nested", "large", "overriddenNil"})] : k \in Enrolled(s)}
+                         stt |-> RE({"none", "empty", "nested", "large", "overriddenNil", "odd"})] : k \in Enrolled(s)}
     [] cls = "NewNode" -> {[op |-> "NewNode", k |-> k] : k \in {x \in CertKeys : s.cert[x] = "none"}}
     [] cls = "AuthorizePending" -> {[op |-> "AuthorizePending", k |-> k] : k \in {x \in CertKeys : s.cert[x] = "pending" /\ ~s.rec[x]}}
     [] cls = "DialPending" -> {[op |-> "Dial", k |-> k, ex |-> RE({"none", "one"}), stt |-> RE({"none", "nested"})] : k \in {x \in CertKeys : s.cert[x] = "pending"}}
